@@ -1933,6 +1933,30 @@ def rule_P8(ctx, rid='P8'):
             dotted(n.func) == 'setattr']
     ctx.ob(rid, 'NeuralNetworkEmulator.read:sweep-restores', bool(sets), r.where(),
            'the reader restores swept attributes by name with setattr')
+    # ... all of them: the only condition on a swept key is that its index suffix is this
+    # network's; a further filter on the NAME (e.g. "fitted attributes only": names ending in
+    # '_') drops constructor parameters such as `activation`, which predict() depends on
+    rcfg = cfg_of(r)
+    for c in sets:
+        if not rcfg.has(c):
+            continue
+        extra = []
+        for t, lab in rcfg.strict_guards(rcfg.node_of(c).id):
+            e = rcfg.nodes[t].expr
+            if e is None or rcfg.nodes[t].kind != 'test':
+                continue
+            for atom, text, truth in __import__('nvstat.cfg', fromlist=['edge_facts']).edge_facts(
+                    e, lab):
+                if any(isinstance(x, ast.Call) and isinstance(x.func, ast.Attribute) and
+                       x.func.attr in ('endswith', 'startswith') for x in ast.walk(atom)) or \
+                        (isinstance(atom, ast.Compare) and isinstance(atom.ops[0], (ast.In, ast.NotIn))
+                         and isinstance(atom.comparators[0], (ast.List, ast.Tuple, ast.Set))):
+                    extra.append(text)
+        ctx.ob(rid, 'NeuralNetworkEmulator.read:sweep-restores-every-key', not extra, r.where(c),
+               'every stored attribute of network i is restored' if not extra else
+               'only keys passing `%s` are restored: constructor parameters of the network '
+               '(activation, ..) stay at the library defaults, so the restored emulator computes '
+               'another function than the one that was written' % extra[0][:50])
 
 
 def _is_memo_cache(prog, cname, attr):
@@ -2309,6 +2333,47 @@ def rule_P2s(ctx, rid='P2'):
                    'not in the file, the read-back object refills its cache earlier and its '
                    'sample stream and volume estimate diverge from the original'
                    % (e.key, unparse(sl[0])[:50]))
+    return n
+
+
+def rule_P2u(ctx, rid='P2'):
+    """Every element of a list attribute is written: an indexed key written inside the loop over
+    the list (`points_bound_{i}` for i, x in enumerate(self.points_bounds)) is not skipped for
+    some elements by a data-dependent condition.  (The reader would have to invent the missing
+    elements.)"""
+    ctx.rule(rid + 'u', 'element-wise persistence: inside the loop over a list attribute, the '
+             'indexed key of that list is written for every element (no data-dependent skip)')
+    prog = ctx.program
+    n = 0
+    for c, w, r, u, obj in persist_classes(prog):
+        par = _parents(w.node)
+        for e in writer_table(w):
+            if not e.key_args or e.kind not in ('dataset', 'group'):
+                continue
+            # enclosing for-loops over an attribute of self
+            p_, loops, conds = e.node, [], []
+            while p_ is not None:
+                q_ = par.get(id(p_))
+                if isinstance(q_, ast.For) and any(
+                        isinstance(x, ast.Attribute) and isinstance(x.value, ast.Name) and
+                        x.value.id == w.self_name for x in ast.walk(q_.iter)):
+                    loops.append(q_)
+                if isinstance(q_, ast.If) and loops == []:
+                    conds.append(q_.test)
+                p_ = q_
+            if not loops:
+                continue
+            # conditions between the write and its loop that are not presence tests
+            bad = [t for t in conds if not (
+                isinstance(t, ast.Compare) and isinstance(t.ops[0], (ast.Is, ast.IsNot)))]
+            n += 1
+            ctx.ob(rid + 'u', '%s:every-element(%s)' % (w.qualname, e.key), not bad,
+                   w.where(e.node),
+                   'key %r is written for every element of the list' % e.key if not bad else
+                   'key %r is written only for the elements passing `%s`: the others are not in '
+                   'the file, the reader has to make them up (empty arrays), and what later reads '
+                   'them - trim() ranks every ellipsoid by its number of points - behaves '
+                   'differently after a round trip' % (e.key, unparse(bad[0])[:40]))
     return n
 
 
